@@ -225,6 +225,7 @@ fn kx_all_layers(i: &Input) -> Outcome {
 }
 
 pub const C05: Registry = &[
+    ("box_same_peer_two_identities", crate::aead::c01_box_same_peer_two_identities),
     ("kx_all_layers_special_secret_key", kx_all_layers),
     ("scalarmult_random_point", scalarmult),
     ("scalarmult_special_point", scalarmult),
@@ -376,6 +377,12 @@ fn special_scalars(rng: &mut Rng) -> Vec<[u8; 32]> {
 
 pub fn c05(ctx: &mut Ctx) -> Search {
     let t = ctx.thorough;
+    // box precomputation as a sequence: one peer key, two own secret keys, on one thread
+    for _ in 0..2 {
+        let (sk_s, sk_a, sk_b) = (ctx.rng.arr::<32>(), ctx.rng.arr::<32>(), ctx.rng.arr::<32>());
+        let (n, m) = (ctx.rng.arr::<24>(), ctx.rng.bytes(5));
+        ctx.run("box_same_peer_two_identities", Input::new().b("s", &sk_s).b("a", &sk_a).b("b", &sk_b).b("n", &n).b("m", &m))?;
+    }
     let n_random = if t { 5000 } else { 300 };
 
     // random scalars x random point encodings (most are off the prime-order
@@ -648,8 +655,25 @@ fn pwhash_derive_keypair(i: &Input) -> Outcome {
     eq(&format!("derive_keypair (Vec containers) public key {}", what), &want_pk, kpv.public_key.as_slice())
 }
 
+/// sk: ANY 32-byte secret key (unclamped, all-zero, all-ones, ...): the public key derived by `crypto_scalarmult_base` and by
+/// the object API `KeyPair::from_secret_key` is libsodium's crypto_scalarmult_base (which clamps)
+fn keypair_from_any_secret_key(i: &Input) -> Outcome {
+    let sk = i.arr::<32>("sk");
+    let want = so::scalarmult_base(&sk);
+    let mut q = [0u8; 32];
+    crypto_scalarmult_base(&mut q, &sk);
+    eq("crypto_scalarmult_base(sk)", &want, &q)?;
+    let kp: dryoc::keypair::StackKeyPair = dryoc::keypair::KeyPair::from_secret_key(dryoc::keypair::SecretKey::from(sk));
+    {
+        use dryoc::types::Bytes;
+        let pkb: &[u8] = Bytes::as_slice(&kp.public_key);
+        eq("KeyPair::from_secret_key(sk).public_key", &want, pkb)
+    }
+}
+
 pub const C13: Registry = &[
     ("pwhash_derive_keypair", pwhash_derive_keypair),
+    ("keypair_from_any_secret_key", keypair_from_any_secret_key),
     ("box_seed_keypair", box_seed_keypair),
     ("kx_seed_keypair", kx_seed_keypair),
     ("sign_seed_keypair", sign_seed_keypair),
@@ -662,6 +686,9 @@ pub const C13: Registry = &[
 
 pub fn c13(ctx: &mut Ctx) -> Search {
     let t = ctx.thorough;
+    for sk in special_scalars(&mut ctx.rng) {
+        ctx.run("keypair_from_any_secret_key", Input::new().b("sk", &sk))?;
+    }
     for hl in [16u64, 32, 33, 64, 128] {
         let pw = ctx.rng.bytes((hl % 7) as usize + 1);
         let salt: [u8; 16] = ctx.rng.arr();
